@@ -2,6 +2,7 @@
 from __future__ import annotations
 
 import math
+import os
 import random
 import shutil
 from fractions import Fraction
@@ -73,22 +74,41 @@ def run(prop: str, tier: str) -> int:
         sdk_angles = [a for a in angles(tier, random.Random(C.seed() * 17 + 3))][: (300 if tier == "quick" else 3000)]
         sdk_angles += [2 * math.pi - e for e in (1e-3, 1e-4, 5e-5, 2e-5, 1e-5, 1e-6, 1e-7)] + [-e for e in (1e-4, 2e-5, 1e-6)] + [4 * math.pi - 1e-6, math.pi - 1e-6, math.pi + 1e-6]
         nsdk = 0
+        from netqasm.logging.glob import set_log_level
+        devnull = open(os.devnull, "w")
         for j, a in enumerate(sdk_angles):
             axis = ("rot_X", "rot_Y", "rot_Z")[j % 3]
             try:
                 # generic hardware, and the NV hardware configuration (simulation: no restriction to multiples of pi/16)
                 nvcfg = j % 4 == 3
-                conn = rig.VConnection("alice", max_qubits=2, **({"hardware_config": NVHardwareConfig(2)} if nvcfg else {}))
-                q = Qubit(conn)
-                getattr(q, axis)(angle=a)
-                conn.flush()
+                # every fifth rotation with the package's logger at DEBUG (the documented way to get debug output; the
+                # records go to a null stream): what is emitted may not depend on the log level
+                debug = j % 5 == 4
+                if debug:
+                    logging.disable(logging.NOTSET)
+                    nlog = logging.getLogger("NetQASM")
+                    saved = (nlog.level, [(h, h.stream) for h in nlog.handlers if isinstance(h, logging.StreamHandler)])
+                    for h, _ in saved[1]:
+                        h.setStream(devnull)
+                    set_log_level("DEBUG")
+                try:
+                    conn = rig.VConnection("alice", max_qubits=2, **({"hardware_config": NVHardwareConfig(2)} if nvcfg else {}))
+                    q = Qubit(conn)
+                    getattr(q, axis)(angle=a)
+                    conn.flush()
+                finally:
+                    if debug:
+                        nlog.setLevel(saved[0])
+                        for h, st in saved[1]:
+                            h.setStream(st)
+                        logging.disable(logging.CRITICAL)
                 steps = [(g[2][0], g[2][1]) for g in conn.ex.gate_log if g[0] == axis.lower()]
             except Exception as ex:
                 V.add("sdk-rotation-raises", {"kind": type(ex).__name__}, f"q.{axis}(angle={a!r}): {type(ex).__name__}: {str(ex)[:160]}")
                 continue
             nsdk += 1
             row = case(len(rows) + 1, prop, a, dtol, steps)
-            row["via"] = axis + ("/nv-config" if nvcfg else "")
+            row["via"] = axis + ("/nv-config" if nvcfg else "") + ("/debug-log" if debug else "")
             rows.append(row)
         res = C.run_tlc_sharded("AngleTrace", rows, tmp, shards=C.ncpu())
         bad = {}
